@@ -1,111 +1,241 @@
 /-
-C04 proofs — structural invariants (snapLe, copyTrue, mhcReg, mhcBind): preservation by `exec` and `begin`.
+C04 proofs — structural invariants (epochNear, epochFree): preservation by `exec` and `begin`.
 -/
 import TbbVerif.Proofs.C04.ReachB
 
 namespace TbbVerif.C04
-variable {cfg : Cfg} {reg : List Nat} {s : St} {t : Nat}
+variable {cfg : Cfg} {r : List RF} {reg : List Nat} {s : St} {t : Nat}
 
-theorem snapLe_exec (hS : Struct reg s) (hO : Orig s) (hR : Reach reg s) :
-    ∀ t' n, ((exec C reg s t).pc t').snapVal = some n → n ≤ (exec C reg s t).G := by
-  have g0 := hR.snapLe
-  have g0t := hR.snapLe t
-  have g1 := hR.epochLe
-  exec_cases_C
-  all_goals (try rw [‹s.pc t = _›] at g0t)
-  all_goals (try simp [Pc.snapVal] at g0t)
-  all_goals (intro t' n h1; by_cases ht : t' = t <;> first | (subst ht; try simp [C, upd_apply, afterLists, nextList, Pc.snapVal] at h1 ⊢) | (try simp [ht, upd_apply, afterLists, nextList] at h1 ⊢))
-  all_goals grind [Pc.snapVal]
-
-theorem snapLe_begin (hS : Struct reg s) (hO : Orig s) (hR : Reach reg s) (hi : s.pc t = .idle) :
-    ∀ t' n, ((begin reg s t).pc t').snapVal = some n → n ≤ (begin reg s t).G := by
-  have g0 := hR.snapLe
-  have g0t := hR.snapLe t
-  have g1 := hR.epochLe
-  begin_cases
-  all_goals (try rw [hi] at g0t)
-  all_goals (try simp [Pc.snapVal] at g0t)
-  all_goals (intro t' n h1; by_cases ht : t' = t <;> first | (subst ht; try simp [C, upd_apply, afterLists, nextList, Pc.snapVal] at h1 ⊢) | (try simp [ht, upd_apply, afterLists, nextList] at h1 ⊢))
-  all_goals grind [Pc.snapVal]
-
-theorem copyTrue_exec (hS : Struct reg s) (hO : Orig s) (hR : Reach reg s) :
-    ∀ t' p v, ((exec C reg s t).pc t').copyVal = some (p, v) → v = true := by
-  have g0 := hR.copyTrue
-  have g0t := hR.copyTrue t
-  exec_cases_C
-  all_goals (try rw [‹s.pc t = _›] at g0t)
-  all_goals (try simp [Pc.copyVal] at g0t)
-  all_goals (intro t' p v h1; by_cases ht : t' = t <;> first | (subst ht; try simp [C, upd_apply, afterLists, nextList, Pc.copyVal] at h1 ⊢) | (try simp [ht, upd_apply, afterLists, nextList] at h1 ⊢))
-  all_goals grind [Pc.copyVal]
-
-theorem copyTrue_begin (hS : Struct reg s) (hO : Orig s) (hR : Reach reg s) (hi : s.pc t = .idle) :
-    ∀ t' p v, ((begin reg s t).pc t').copyVal = some (p, v) → v = true := by
-  have g0 := hR.copyTrue
-  have g0t := hR.copyTrue t
-  begin_cases
-  all_goals (try rw [hi] at g0t)
-  all_goals (try simp [Pc.copyVal] at g0t)
-  all_goals (intro t' p v h1; by_cases ht : t' = t <;> first | (subst ht; try simp [C, upd_apply, afterLists, nextList, Pc.copyVal] at h1 ⊢) | (try simp [ht, upd_apply, afterLists, nextList] at h1 ⊢))
-  all_goals grind [Pc.copyVal]
-
-theorem mhcReg_exec (hS : Struct reg s) (hO : Orig s) (hR : Reach reg s) :
-    ∀ L x p, x ∈ (exec C reg s t).items L → (exec C reg s t).par x = some p → (exec C reg s t).mhc p = true := by
-  have g0 := hR.mhcReg
-  have g1 := hR.mhcBind
-  have g1t := hR.mhcBind t
-  have g2 := hS.ownerPar
-  have g2t := hS.ownerPar t
-  have g3 := hS.itemsOk
-  have g3t := hS.itemsOk t
-  have g4 := hS.createdPar
-  exec_cases_C
+theorem epochNear_exec_c (hS : Struct reg s) (hO : Orig s) (hH : Hint s) (hR : Reach reg s) :
+    ∀ L, L ∈ reg → (execCancel (C r) reg s t).act L = true → (execCancel (C r) reg s t).eff L = (execCancel (C r) reg s t).G ∨ (execCancel (C r) reg s t).eff L + 1 = (execCancel (C r) reg s t).G := by
+  have g0 := hR.epochNear
+  have g1 := hR.epochWalk
+  have g1t := hR.epochWalk t
+  have g2 := hR.propMx
+  have g2t := hR.propMx t
+  have g3 := hR.syncG
+  have g3t := hR.syncG t
+  have g4 := hS.regMx
+  have g4t := hS.regMx t
+  unfold execCancel
+  try unfold walkNext
+  try unfold afterHint
+  try unfold applyReset
+  try simp only [C_propHolds, C_copyNeverClears, afterLists, ↓reduceIte, Bool.true_and]
+  repeat' split
   all_goals (try rw [‹s.pc t = _›] at g1t)
-  all_goals (try simp [Pc.pastHint, Pc.owner, List.mem_cons, List.mem_of_mem_erase] at g1t)
+  all_goals (try simp [Pc.inProp, Pc.walkFrom, Pc.inReg, St.eff] at g1t)
   all_goals (try rw [‹s.pc t = _›] at g2t)
-  all_goals (try simp [Pc.pastHint, Pc.owner, List.mem_cons, List.mem_of_mem_erase] at g2t)
+  all_goals (try simp [Pc.inProp, Pc.walkFrom, Pc.inReg, St.eff] at g2t)
   all_goals (try rw [‹s.pc t = _›] at g3t)
-  all_goals (try simp [Pc.pastHint, Pc.owner, List.mem_cons, List.mem_of_mem_erase] at g3t)
-  all_goals (intro L x p h1 h2; try simp [C, upd_apply, afterLists, nextList] at h1 h2 ⊢)
-  all_goals grind [Pc.pastHint, Pc.owner, List.mem_cons, List.mem_of_mem_erase]
+  all_goals (try simp [Pc.inProp, Pc.walkFrom, Pc.inReg, St.eff] at g3t)
+  all_goals (try rw [‹s.pc t = _›] at g4t)
+  all_goals (try simp [Pc.inProp, Pc.walkFrom, Pc.inReg, St.eff] at g4t)
+  all_goals (intro L h1 h2; try simp [C, St.eff, upd_apply, afterLists, nextList] at h1 h2 ⊢)
+  all_goals grind [Pc.inProp, Pc.walkFrom, Pc.inReg, St.eff]
 
-theorem mhcReg_begin (hS : Struct reg s) (hO : Orig s) (hR : Reach reg s) (hi : s.pc t = .idle) :
-    ∀ L x p, x ∈ (begin reg s t).items L → (begin reg s t).par x = some p → (begin reg s t).mhc p = true := by
-  have g0 := hR.mhcReg
-  have g1 := hR.mhcBind
-  have g1t := hR.mhcBind t
-  have g2 := hS.ownerPar
-  have g2t := hS.ownerPar t
-  have g3 := hS.itemsOk
-  have g3t := hS.itemsOk t
-  have g4 := hS.createdPar
+theorem epochNear_exec_b (hS : Struct reg s) (hO : Orig s) (hH : Hint s) (hR : Reach reg s) :
+    ∀ L, L ∈ reg → (execBind (C r) s t).act L = true → (execBind (C r) s t).eff L = (execBind (C r) s t).G ∨ (execBind (C r) s t).eff L + 1 = (execBind (C r) s t).G := by
+  have g0 := hR.epochNear
+  have g1 := hR.epochWalk
+  have g1t := hR.epochWalk t
+  have g2 := hR.propMx
+  have g2t := hR.propMx t
+  have g3 := hR.syncG
+  have g3t := hR.syncG t
+  have g4 := hS.regMx
+  have g4t := hS.regMx t
+  unfold execBind
+  try unfold walkNext
+  try unfold afterHint
+  try unfold applyReset
+  try simp only [C_propHolds, C_copyNeverClears, afterLists, ↓reduceIte, Bool.true_and]
+  repeat' split
+  all_goals (try rw [‹s.pc t = _›] at g1t)
+  all_goals (try simp [Pc.inProp, Pc.walkFrom, Pc.inReg, St.eff] at g1t)
+  all_goals (try rw [‹s.pc t = _›] at g2t)
+  all_goals (try simp [Pc.inProp, Pc.walkFrom, Pc.inReg, St.eff] at g2t)
+  all_goals (try rw [‹s.pc t = _›] at g3t)
+  all_goals (try simp [Pc.inProp, Pc.walkFrom, Pc.inReg, St.eff] at g3t)
+  all_goals (try rw [‹s.pc t = _›] at g4t)
+  all_goals (try simp [Pc.inProp, Pc.walkFrom, Pc.inReg, St.eff] at g4t)
+  all_goals (intro L h1 h2; try simp [C, St.eff, upd_apply, afterLists, nextList] at h1 h2 ⊢)
+  all_goals grind [Pc.inProp, Pc.walkFrom, Pc.inReg, St.eff]
+
+theorem epochNear_exec_o (hS : Struct reg s) (hO : Orig s) (hH : Hint s) (hR : Reach reg s) :
+    ∀ L, L ∈ reg → (execOther s t).act L = true → (execOther s t).eff L = (execOther s t).G ∨ (execOther s t).eff L + 1 = (execOther s t).G := by
+  have g0 := hR.epochNear
+  have g1 := hR.epochWalk
+  have g1t := hR.epochWalk t
+  have g2 := hR.propMx
+  have g2t := hR.propMx t
+  have g3 := hR.syncG
+  have g3t := hR.syncG t
+  have g4 := hS.regMx
+  have g4t := hS.regMx t
+  unfold execOther
+  try unfold walkNext
+  try unfold afterHint
+  try unfold applyReset
+  try simp only [C_propHolds, C_copyNeverClears, afterLists, ↓reduceIte, Bool.true_and]
+  repeat' split
+  all_goals (try rw [‹s.pc t = _›] at g1t)
+  all_goals (try simp [Pc.inProp, Pc.walkFrom, Pc.inReg, St.eff] at g1t)
+  all_goals (try rw [‹s.pc t = _›] at g2t)
+  all_goals (try simp [Pc.inProp, Pc.walkFrom, Pc.inReg, St.eff] at g2t)
+  all_goals (try rw [‹s.pc t = _›] at g3t)
+  all_goals (try simp [Pc.inProp, Pc.walkFrom, Pc.inReg, St.eff] at g3t)
+  all_goals (try rw [‹s.pc t = _›] at g4t)
+  all_goals (try simp [Pc.inProp, Pc.walkFrom, Pc.inReg, St.eff] at g4t)
+  all_goals (intro L h1 h2; try simp [C, St.eff, upd_apply, afterLists, nextList] at h1 h2 ⊢)
+  all_goals grind [Pc.inProp, Pc.walkFrom, Pc.inReg, St.eff]
+
+theorem epochNear_exec (hS : Struct reg s) (hO : Orig s) (hH : Hint s) (hR : Reach reg s) :
+    ∀ L, L ∈ reg → (exec (C r) reg s t).act L = true → (exec (C r) reg s t).eff L = (exec (C r) reg s t).G ∨ (exec (C r) reg s t).eff L + 1 = (exec (C r) reg s t).G := by
+  unfold exec
+  split
+  · exact epochNear_exec_c hS hO hH hR
+  · split
+    · exact epochNear_exec_b hS hO hH hR
+    · exact epochNear_exec_o hS hO hH hR
+
+theorem epochNear_begin (hS : Struct reg s) (hO : Orig s) (hH : Hint s) (hR : Reach reg s) (hi : s.pc t = .idle) :
+    ∀ L, L ∈ reg → (begin (C r) reg s t).act L = true → (begin (C r) reg s t).eff L = (begin (C r) reg s t).G ∨ (begin (C r) reg s t).eff L + 1 = (begin (C r) reg s t).G := by
+  have g0 := hR.epochNear
+  have g1 := hR.epochWalk
+  have g1t := hR.epochWalk t
+  have g2 := hR.propMx
+  have g2t := hR.propMx t
+  have g3 := hR.syncG
+  have g3t := hR.syncG t
+  have g4 := hS.regMx
+  have g4t := hS.regMx t
   begin_cases
   all_goals (try rw [hi] at g1t)
-  all_goals (try simp [Pc.pastHint, Pc.owner, List.mem_cons, List.mem_of_mem_erase] at g1t)
+  all_goals (try simp [Pc.inProp, Pc.walkFrom, Pc.inReg, St.eff] at g1t)
   all_goals (try rw [hi] at g2t)
-  all_goals (try simp [Pc.pastHint, Pc.owner, List.mem_cons, List.mem_of_mem_erase] at g2t)
+  all_goals (try simp [Pc.inProp, Pc.walkFrom, Pc.inReg, St.eff] at g2t)
   all_goals (try rw [hi] at g3t)
-  all_goals (try simp [Pc.pastHint, Pc.owner, List.mem_cons, List.mem_of_mem_erase] at g3t)
-  all_goals (intro L x p h1 h2; try simp [C, upd_apply, afterLists, nextList] at h1 h2 ⊢)
-  all_goals grind [Pc.pastHint, Pc.owner, List.mem_cons, List.mem_of_mem_erase]
+  all_goals (try simp [Pc.inProp, Pc.walkFrom, Pc.inReg, St.eff] at g3t)
+  all_goals (try rw [hi] at g4t)
+  all_goals (try simp [Pc.inProp, Pc.walkFrom, Pc.inReg, St.eff] at g4t)
+  all_goals (intro L h1 h2; try simp [C, St.eff, upd_apply, afterLists, nextList] at h1 h2 ⊢)
+  all_goals grind [Pc.inProp, Pc.walkFrom, Pc.inReg, St.eff]
 
-theorem mhcBind_exec (hS : Struct reg s) (hO : Orig s) (hR : Reach reg s) :
-    ∀ t' p, ((exec C reg s t).pc t').pastHint = some p → (exec C reg s t).mhc p = true := by
-  have g0 := hR.mhcBind
-  have g0t := hR.mhcBind t
-  exec_cases_C
-  all_goals (try rw [‹s.pc t = _›] at g0t)
-  all_goals (try simp [Pc.pastHint] at g0t)
-  all_goals (intro t' p h1; by_cases ht : t' = t <;> first | (subst ht; try simp [C, upd_apply, afterLists, nextList, Pc.pastHint] at h1 ⊢) | (try simp [ht, upd_apply, afterLists, nextList] at h1 ⊢))
-  all_goals grind [Pc.pastHint]
+theorem epochFree_exec_c (hS : Struct reg s) (hO : Orig s) (hH : Hint s) (hR : Reach reg s) :
+    ∀ L, L ∈ reg → (execCancel (C r) reg s t).act L = true → (execCancel (C r) reg s t).propMx = none → (execCancel (C r) reg s t).eff L = (execCancel (C r) reg s t).G := by
+  have g0 := hR.epochFree
+  have g1 := hR.epochWalk
+  have g1t := hR.epochWalk t
+  have g2 := hR.propMx
+  have g2t := hR.propMx t
+  have g3 := hR.syncG
+  have g3t := hR.syncG t
+  have g4 := hS.regMx
+  have g4t := hS.regMx t
+  unfold execCancel
+  try unfold walkNext
+  try unfold afterHint
+  try unfold applyReset
+  try simp only [C_propHolds, C_copyNeverClears, afterLists, ↓reduceIte, Bool.true_and]
+  repeat' split
+  all_goals (try rw [‹s.pc t = _›] at g1t)
+  all_goals (try simp [Pc.inProp, Pc.walkFrom, Pc.inReg, St.eff] at g1t)
+  all_goals (try rw [‹s.pc t = _›] at g2t)
+  all_goals (try simp [Pc.inProp, Pc.walkFrom, Pc.inReg, St.eff] at g2t)
+  all_goals (try rw [‹s.pc t = _›] at g3t)
+  all_goals (try simp [Pc.inProp, Pc.walkFrom, Pc.inReg, St.eff] at g3t)
+  all_goals (try rw [‹s.pc t = _›] at g4t)
+  all_goals (try simp [Pc.inProp, Pc.walkFrom, Pc.inReg, St.eff] at g4t)
+  all_goals (intro L h1 h2 h3; try simp [C, St.eff, upd_apply, afterLists, nextList] at h1 h2 h3 ⊢)
+  all_goals grind [Pc.inProp, Pc.walkFrom, Pc.inReg, St.eff]
 
-theorem mhcBind_begin (hS : Struct reg s) (hO : Orig s) (hR : Reach reg s) (hi : s.pc t = .idle) :
-    ∀ t' p, ((begin reg s t).pc t').pastHint = some p → (begin reg s t).mhc p = true := by
-  have g0 := hR.mhcBind
-  have g0t := hR.mhcBind t
+theorem epochFree_exec_b (hS : Struct reg s) (hO : Orig s) (hH : Hint s) (hR : Reach reg s) :
+    ∀ L, L ∈ reg → (execBind (C r) s t).act L = true → (execBind (C r) s t).propMx = none → (execBind (C r) s t).eff L = (execBind (C r) s t).G := by
+  have g0 := hR.epochFree
+  have g1 := hR.epochWalk
+  have g1t := hR.epochWalk t
+  have g2 := hR.propMx
+  have g2t := hR.propMx t
+  have g3 := hR.syncG
+  have g3t := hR.syncG t
+  have g4 := hS.regMx
+  have g4t := hS.regMx t
+  unfold execBind
+  try unfold walkNext
+  try unfold afterHint
+  try unfold applyReset
+  try simp only [C_propHolds, C_copyNeverClears, afterLists, ↓reduceIte, Bool.true_and]
+  repeat' split
+  all_goals (try rw [‹s.pc t = _›] at g1t)
+  all_goals (try simp [Pc.inProp, Pc.walkFrom, Pc.inReg, St.eff] at g1t)
+  all_goals (try rw [‹s.pc t = _›] at g2t)
+  all_goals (try simp [Pc.inProp, Pc.walkFrom, Pc.inReg, St.eff] at g2t)
+  all_goals (try rw [‹s.pc t = _›] at g3t)
+  all_goals (try simp [Pc.inProp, Pc.walkFrom, Pc.inReg, St.eff] at g3t)
+  all_goals (try rw [‹s.pc t = _›] at g4t)
+  all_goals (try simp [Pc.inProp, Pc.walkFrom, Pc.inReg, St.eff] at g4t)
+  all_goals (intro L h1 h2 h3; try simp [C, St.eff, upd_apply, afterLists, nextList] at h1 h2 h3 ⊢)
+  all_goals grind [Pc.inProp, Pc.walkFrom, Pc.inReg, St.eff]
+
+theorem epochFree_exec_o (hS : Struct reg s) (hO : Orig s) (hH : Hint s) (hR : Reach reg s) :
+    ∀ L, L ∈ reg → (execOther s t).act L = true → (execOther s t).propMx = none → (execOther s t).eff L = (execOther s t).G := by
+  have g0 := hR.epochFree
+  have g1 := hR.epochWalk
+  have g1t := hR.epochWalk t
+  have g2 := hR.propMx
+  have g2t := hR.propMx t
+  have g3 := hR.syncG
+  have g3t := hR.syncG t
+  have g4 := hS.regMx
+  have g4t := hS.regMx t
+  unfold execOther
+  try unfold walkNext
+  try unfold afterHint
+  try unfold applyReset
+  try simp only [C_propHolds, C_copyNeverClears, afterLists, ↓reduceIte, Bool.true_and]
+  repeat' split
+  all_goals (try rw [‹s.pc t = _›] at g1t)
+  all_goals (try simp [Pc.inProp, Pc.walkFrom, Pc.inReg, St.eff] at g1t)
+  all_goals (try rw [‹s.pc t = _›] at g2t)
+  all_goals (try simp [Pc.inProp, Pc.walkFrom, Pc.inReg, St.eff] at g2t)
+  all_goals (try rw [‹s.pc t = _›] at g3t)
+  all_goals (try simp [Pc.inProp, Pc.walkFrom, Pc.inReg, St.eff] at g3t)
+  all_goals (try rw [‹s.pc t = _›] at g4t)
+  all_goals (try simp [Pc.inProp, Pc.walkFrom, Pc.inReg, St.eff] at g4t)
+  all_goals (intro L h1 h2 h3; try simp [C, St.eff, upd_apply, afterLists, nextList] at h1 h2 h3 ⊢)
+  all_goals grind [Pc.inProp, Pc.walkFrom, Pc.inReg, St.eff]
+
+theorem epochFree_exec (hS : Struct reg s) (hO : Orig s) (hH : Hint s) (hR : Reach reg s) :
+    ∀ L, L ∈ reg → (exec (C r) reg s t).act L = true → (exec (C r) reg s t).propMx = none → (exec (C r) reg s t).eff L = (exec (C r) reg s t).G := by
+  unfold exec
+  split
+  · exact epochFree_exec_c hS hO hH hR
+  · split
+    · exact epochFree_exec_b hS hO hH hR
+    · exact epochFree_exec_o hS hO hH hR
+
+theorem epochFree_begin (hS : Struct reg s) (hO : Orig s) (hH : Hint s) (hR : Reach reg s) (hi : s.pc t = .idle) :
+    ∀ L, L ∈ reg → (begin (C r) reg s t).act L = true → (begin (C r) reg s t).propMx = none → (begin (C r) reg s t).eff L = (begin (C r) reg s t).G := by
+  have g0 := hR.epochFree
+  have g1 := hR.epochWalk
+  have g1t := hR.epochWalk t
+  have g2 := hR.propMx
+  have g2t := hR.propMx t
+  have g3 := hR.syncG
+  have g3t := hR.syncG t
+  have g4 := hS.regMx
+  have g4t := hS.regMx t
   begin_cases
-  all_goals (try rw [hi] at g0t)
-  all_goals (try simp [Pc.pastHint] at g0t)
-  all_goals (intro t' p h1; by_cases ht : t' = t <;> first | (subst ht; try simp [C, upd_apply, afterLists, nextList, Pc.pastHint] at h1 ⊢) | (try simp [ht, upd_apply, afterLists, nextList] at h1 ⊢))
-  all_goals grind [Pc.pastHint]
+  all_goals (try rw [hi] at g1t)
+  all_goals (try simp [Pc.inProp, Pc.walkFrom, Pc.inReg, St.eff] at g1t)
+  all_goals (try rw [hi] at g2t)
+  all_goals (try simp [Pc.inProp, Pc.walkFrom, Pc.inReg, St.eff] at g2t)
+  all_goals (try rw [hi] at g3t)
+  all_goals (try simp [Pc.inProp, Pc.walkFrom, Pc.inReg, St.eff] at g3t)
+  all_goals (try rw [hi] at g4t)
+  all_goals (try simp [Pc.inProp, Pc.walkFrom, Pc.inReg, St.eff] at g4t)
+  all_goals (intro L h1 h2 h3; try simp [C, St.eff, upd_apply, afterLists, nextList] at h1 h2 h3 ⊢)
+  all_goals grind [Pc.inProp, Pc.walkFrom, Pc.inReg, St.eff]
 
 end TbbVerif.C04
